@@ -199,7 +199,7 @@ def run(tier, seed, out, drv, facts):
             importlib.invalidate_caches()
             for nm in ("spy_a", "spy_b", "spy_c"):
                 spies[nm] = importlib.import_module(nm)
-            n = 600 if thorough else 80
+            n = 4000 if thorough else 80
             directed = []
             for chk in ("spy_a.check", None):
                 for first_out in (0, 1):
